@@ -613,6 +613,7 @@ def run(ctx):
         "assignment on non-collections is not issued; copy is tied only in states where the invariant holds "
         "(deepcopy of a damaged graph is not modelled); deepcopy itself is modelled as a subtree clone",
     ]
+    ctx.regen(["GenForest"])     # AST fingerprints of the modelled methods (fail closed)
     built = ctx.build_props()
     if ctx.tier == "thorough" and built:
         ctx.coqchk("MV.Props.C11")
